@@ -14,6 +14,7 @@ import (
 
 	"go.pennock.tech/tabular"
 	tjson "go.pennock.tech/tabular/json"
+	"go.pennock.tech/tabular/properties"
 )
 
 // hostile header texts: quotes, backslashes, control bytes, HTML-sensitive
@@ -373,7 +374,11 @@ func runRenderCase(ts TableSpec) CaseOut {
 	// renders when the spec has stages); the view it is judged against is
 	// computed from the spec, not read back from the table
 	o := ts.BuildRenderW(t, func(t tabular.Table) RenderW { return tjson.Wrap(t) })
-	v := ts.SpecView()
+	return renderCaseOut(ts.SpecView(), o, ts.Size())
+}
+
+// renderCaseOut: the Coq term, tags and description of one render case
+func renderCaseOut(v View, o Outcome, size int) CaseOut {
 	enc := func(s string) string {
 		b, err := json.Marshal(s)
 		if err != nil {
@@ -462,11 +467,582 @@ func runRenderCase(ts TableSpec) CaseOut {
 	return CaseOut{
 		Coq:        term,
 		Desc:       d,
-		Size:       ts.Size(),
+		Size:       size,
 		Tags:       tags,
 		Key:        vc + o.Kind,
 		Nontrivial: o.Kind == "ok" && nObj > 0,
 	}
+}
+
+// ---- build histories on wide tables
+
+// histOp: one step of a build history.  hdr: AddHeaders with N texts; row: a
+// body row of N cells (How 0 AddRowItems, 1 NewRow+Add+AddRow, 2 AppendNewRow
+// then Add cell by cell), the cells listed in Empty being empty ("" or nil);
+// sep: AddSeparator; skip: Column(Col).SetProperty(Skipable, Val) when that
+// column exists at this point (Val 0 nil, 1 true, 2 false, 3 non-bool).
+type histOp struct {
+	Op    string `json:"op"`
+	N     int    `json:"n,omitempty"`
+	How   int    `json:"how,omitempty"`
+	Empty []int  `json:"empty,omitempty"`
+	Col   int    `json:"col,omitempty"`
+	Val   int    `json:"val,omitempty"`
+}
+
+type histSpec struct {
+	Hist []histOp `json:"hist"`
+	Via  int      `json:"via,omitempty"` // 0 json.Render(t), 1 Wrap(t).Render(), 2 a wrapper made before the build
+}
+
+func histItem(empty bool, i int) (interface{}, VCell) {
+	mk := func(item interface{}, text string) (interface{}, VCell) {
+		b, err := json.Marshal(item)
+		if err != nil {
+			panic(err)
+		}
+		js := string(b)
+		return item, VCell{Text: text, Empty: text == "", JSON: &js, TW: len(text), H: 1}
+	}
+	if empty {
+		if i%3 == 1 {
+			return mk(nil, "")
+		}
+		return mk("", "")
+	}
+	if i%5 == 4 {
+		return mk(i, fmt.Sprint(i))
+	}
+	return mk("v", "v")
+}
+
+func inInts(xs []int, x int) bool {
+	for _, y := range xs {
+		if x == y {
+			return true
+		}
+	}
+	return false
+}
+
+// run replays the history on a fresh table through the public API and
+// computes, from the history alone, the view the table must present.
+func (hs histSpec) run() (View, Outcome) {
+	t := tabular.New()
+	var early *tjson.JSONTable
+	if hs.Via == 2 {
+		early = tjson.Wrap(t)
+	}
+	v := View{}
+	skip := map[int]int{}
+	for _, op := range hs.Hist {
+		switch op.Op {
+		case "hdr":
+			items := make([]interface{}, op.N)
+			cells := make([]VCell, op.N)
+			for i := range items {
+				text := fmt.Sprintf("h%d", i+1)
+				items[i] = text
+				b, _ := json.Marshal(text)
+				js := string(b)
+				cells[i] = VCell{Text: text, JSON: &js, TW: len(text), H: 1}
+			}
+			t.AddHeaders(items...)
+			v.Header = &cells
+			if op.N > v.NCols {
+				v.NCols = op.N
+			}
+		case "row":
+			items := make([]interface{}, op.N)
+			cells := make([]VCell, op.N)
+			for i := range items {
+				items[i], cells[i] = histItem(inInts(op.Empty, i), i)
+			}
+			switch op.How {
+			case 1:
+				row := tabular.NewRow()
+				for _, it := range items {
+					row.Add(tabular.NewCell(it))
+				}
+				t.AddRow(row)
+			case 2:
+				row := t.AppendNewRow()
+				for _, it := range items {
+					row.Add(tabular.NewCell(it))
+				}
+			default:
+				t.AddRowItems(items...)
+			}
+			v.Rows = append(v.Rows, &cells)
+			if op.N > v.NCols {
+				v.NCols = op.N
+			}
+		case "sep":
+			t.AddSeparator()
+			v.Rows = append(v.Rows, nil)
+		case "skip":
+			if op.Col < 0 || op.Col > v.NCols {
+				continue // no such column yet: Column() is nil, nothing is set
+			}
+			if col := t.Column(op.Col); col != nil {
+				col.SetProperty(properties.Skipable, map[int]interface{}{1: true, 2: false, 3: "yes"}[op.Val])
+			}
+			skip[op.Col] = op.Val
+		}
+	}
+	for i := 0; i <= v.NCols; i++ {
+		v.Align = append(v.Align, 0)
+		v.Skip = append(v.Skip, skip[i])
+	}
+	o := capture(func() (string, error) {
+		switch hs.Via {
+		case 1:
+			return tjson.Wrap(t).Render()
+		case 2:
+			return early.Render()
+		}
+		return tjson.Render(t)
+	})
+	return v, o
+}
+
+func (hs histSpec) size() int {
+	n := len(hs.Hist) + hs.Via
+	for _, op := range hs.Hist {
+		n += op.N + len(op.Empty)
+		if op.Op == "skip" {
+			n += 1
+		}
+	}
+	return n
+}
+
+func (hs histSpec) shrinks() []histSpec {
+	var out []histSpec
+	clone := func() histSpec {
+		b, _ := json.Marshal(hs)
+		var c histSpec
+		json.Unmarshal(b, &c)
+		return c
+	}
+	trim := func(op *histOp, n int) {
+		op.N = n
+		var e []int
+		for _, x := range op.Empty {
+			if x < n {
+				e = append(e, x)
+			}
+		}
+		op.Empty = e
+	}
+	for i, op := range hs.Hist {
+		c := clone()
+		c.Hist = append(append([]histOp{}, c.Hist[:i]...), c.Hist[i+1:]...)
+		out = append(out, c)
+		if op.N > 0 {
+			for _, n := range []int{op.N - 1, op.N / 2, 10, 11, 65} {
+				if n >= 0 && n < op.N {
+					c := clone()
+					trim(&c.Hist[i], n)
+					out = append(out, c)
+				}
+			}
+		}
+		for j := range op.Empty {
+			c := clone()
+			c.Hist[i].Empty = append(append([]int{}, op.Empty[:j]...), op.Empty[j+1:]...)
+			out = append(out, c)
+		}
+		if op.Op == "row" && op.How != 0 {
+			c := clone()
+			c.Hist[i].How = 0
+			out = append(out, c)
+		}
+	}
+	// all widths scaled down together (keeps the relative order of the steps)
+	for _, d := range []int{1, 8, 32} {
+		c := clone()
+		okc := false
+		for i := range c.Hist {
+			if c.Hist[i].N > d {
+				trim(&c.Hist[i], c.Hist[i].N-d)
+				okc = true
+			}
+		}
+		if okc {
+			out = append(out, c)
+		}
+	}
+	if hs.Via != 0 {
+		c := clone()
+		c.Via = 0
+		out = append(out, c)
+	}
+	return out
+}
+
+func hSkip(col, val int) histOp { return histOp{Op: "skip", Col: col, Val: val} }
+func hHdr(n int) histOp         { return histOp{Op: "hdr", N: n} }
+func hRow(n, how int, empty ...int) histOp {
+	return histOp{Op: "row", N: n, How: how, Empty: empty}
+}
+
+// widen the table to w columns by method m (0 AddHeaders, 1..3 a row by How m-1)
+func hWiden(w, m int) histOp {
+	if m == 0 {
+		return hHdr(w)
+	}
+	return hRow(w, m-1)
+}
+
+// the histories that are enumerated (small ones) and the wide ones (big Coq terms)
+func histFamilies(tier string) (small, wide []histSpec) {
+	add := func(h histSpec) {
+		w := 0
+		for _, op := range h.Hist {
+			if op.N > w {
+				w = op.N
+			}
+		}
+		if w > 40 {
+			wide = append(wide, h)
+		} else {
+			small = append(small, h)
+		}
+	}
+	// (a) every assignment of {unset,true,false,non-bool} to column 0 and to ALL of the
+	// columns 1..N, N = 1..3 (4 in thorough): a row of empty cells, a row of non-empty ones
+	maxN := 3
+	if tier == "thorough" {
+		maxN = 4
+	}
+	for n := 1; n <= maxN; n++ {
+		total := 1
+		for i := 0; i <= n; i++ {
+			total *= 4
+		}
+		for code := 0; code < total; code++ {
+			h := histSpec{Hist: []histOp{hHdr(n)}, Via: code % 3}
+			x := code
+			for c := 0; c <= n; c++ {
+				if x%4 != 0 {
+					h.Hist = append(h.Hist, hSkip(c, x%4))
+				}
+				x /= 4
+			}
+			all := make([]int, n)
+			for i := range all {
+				all[i] = i
+			}
+			h.Hist = append(h.Hist, hRow(n, 0, all...), hRow(n, 0))
+			add(h)
+		}
+	}
+	// (b) a setting made on the last column (or on column 0, or on all columns) of a table of
+	// k columns, which is then widened past a capacity step to w columns in one step
+	type kw struct{ k, w int }
+	var kws []kw
+	ks := []int{0, 3, 9, 15, 24}
+	if tier == "thorough" {
+		ks = []int{0, 1, 2, 3, 8, 9, 10, 15, 16, 24, 25}
+	}
+	for _, w := range []int{9, 10, 11, 16, 17, 25, 26} {
+		for _, k := range ks {
+			if k < w {
+				kws = append(kws, kw{k, w})
+			}
+		}
+	}
+	for _, x := range []kw{{0, 70}, {3, 70}, {25, 70}, {0, 130}, {3, 130}, {69, 130}} {
+		kws = append(kws, x)
+	}
+	if tier == "thorough" {
+		for _, w := range []int{12, 38, 39, 40, 57, 58, 64, 65, 91, 92, 129} {
+			for _, k := range []int{0, 2, 10, 37} {
+				if k < w {
+					kws = append(kws, kw{k, w})
+				}
+			}
+		}
+	}
+	for _, x := range kws {
+		for m := 0; m < 4; m++ {
+			if tier != "thorough" && m != 0 && m != 3 && (x.w > 40 || x.w == 9 || x.w == 16 || x.w == 25) {
+				continue
+			}
+			for _, sv := range [][2]int{{x.k, 1}, {0, 1}, {x.k, 3}, {0, 3}, {-1, 1}} {
+				if tier != "thorough" && sv[0] == 0 && x.k != 0 && (x.w > 40 || sv[1] == 3) {
+					continue
+				}
+				h := histSpec{Via: (x.k + x.w + m) % 3}
+				if x.k > 0 {
+					h.Hist = append(h.Hist, hWiden(x.k, (m+x.k)%4))
+				}
+				if sv[0] == -1 { // every existing column gets its own setting
+					for c := 0; c <= x.k; c++ {
+						h.Hist = append(h.Hist, hSkip(c, 1+(c%2)))
+					}
+				} else {
+					h.Hist = append(h.Hist, hSkip(sv[0], sv[1]))
+				}
+				h.Hist = append(h.Hist, hWiden(x.w, m))
+				if m != 0 || x.k > 0 {
+					h.Hist = append(h.Hist, hHdr(x.w))
+				}
+				// a short row whose cells are all empty: what is omitted is decided by the settings alone
+				n := x.k + 1
+				all := make([]int, n)
+				for i := range all {
+					all[i] = i
+				}
+				h.Hist = append(h.Hist, hRow(n, 0, all...))
+				add(h)
+			}
+		}
+	}
+	// (c) widened in several steps, the then-last column marked before each step
+	chains := [][]int{{3, 10, 16, 25}, {0, 9, 10, 11, 17, 26}, {1, 2, 3, 4, 5, 6, 7, 8, 9, 10, 11, 12}, {9, 15, 16, 24, 25, 26}, {5, 12, 30, 70}, {2, 64, 65, 130}, {10, 16, 25, 38, 58, 88, 130}}
+	for ci, ch := range chains {
+		for m := 0; m < 4; m++ {
+			if ch[len(ch)-1] > 40 && m != ci%4 && tier != "thorough" {
+				continue
+			}
+			for _, val := range []int{1, 3} {
+				h := histSpec{Via: (ci + m) % 3}
+				var marked []int
+				for si, w := range ch {
+					if w > 0 {
+						h.Hist = append(h.Hist, hWiden(w, (m+si)%4))
+					}
+					if si < len(ch)-1 {
+						if val == 3 && si != len(ch)/2 {
+							continue // one non-boolean setting, in the middle of the chain
+						}
+						h.Hist = append(h.Hist, hSkip(w, val))
+						marked = append(marked, w)
+					}
+				}
+				last := ch[len(ch)-1]
+				h.Hist = append(h.Hist, hHdr(last))
+				var empty []int
+				for _, c := range marked {
+					if c > 0 {
+						empty = append(empty, c-1)
+					}
+				}
+				n := marked[len(marked)-1] + 1
+				if n > last {
+					n = last
+				}
+				h.Hist = append(h.Hist, hRow(n, 0, empty...))
+				add(h)
+			}
+		}
+	}
+	// (d) wide tables with skipable columns at and beyond 64
+	for _, w := range []int{63, 64, 65, 66, 70, 100, 128, 129, 130} {
+		var cols []int
+		for _, c := range []int{1, 32, 63, 64, 65, 66, 67, w - 1, w} {
+			if c >= 1 && c <= w && !inInts(cols, c) {
+				cols = append(cols, c)
+			}
+		}
+		var empty []int
+		for _, c := range cols {
+			empty = append(empty, c-1)
+		}
+		// own settings
+		h := histSpec{Hist: []histOp{hHdr(w)}, Via: w % 3}
+		for _, c := range cols {
+			h.Hist = append(h.Hist, hSkip(c, 1))
+		}
+		h.Hist = append(h.Hist, hRow(w, w%3, empty...))
+		add(h)
+		// the column-0 default, with own "false" on two columns
+		h2 := histSpec{Hist: []histOp{hHdr(w), hSkip(0, 1), hSkip(1, 2), hSkip(w, 2)}, Via: (w + 1) % 3}
+		h2.Hist = append(h2.Hist, hRow(w, 0, empty...))
+		add(h2)
+	}
+	return small, wide
+}
+
+func randHist(r *RNG, maxW int) histSpec {
+	widths := []int{1, 2, 3, 5, 8, 9, 10, 11, 12, 15, 16, 17, 18, 24, 25, 26, 27, 37, 38, 39, 40, 41, 57, 58, 59, 63, 64, 65, 66, 70, 86, 87, 88, 100, 128, 129, 130}
+	h := histSpec{Via: r.Intn(3)}
+	cur := 0
+	if r.Pct(40) {
+		h.Hist = append(h.Hist, hSkip(0, pick(r, []int{1, 1, 2, 3})))
+	}
+	var marked []int
+	steps := 1 + r.Intn(4)
+	for s := 0; s < steps; s++ {
+		var cand []int
+		for _, w := range widths {
+			if w > cur && w <= maxW {
+				cand = append(cand, w)
+			}
+		}
+		if len(cand) == 0 {
+			break
+		}
+		if len(cand) > 6 && r.Pct(70) {
+			cand = cand[:6]
+		}
+		cur = pick(r, cand)
+		h.Hist = append(h.Hist, hWiden(cur, r.Intn(4)))
+		if r.Pct(75) {
+			c := cur
+			if r.Pct(30) {
+				c = r.Intn(cur + 1)
+			}
+			val := 1
+			if r.Pct(12) {
+				val = pick(r, []int{0, 2, 3})
+			}
+			h.Hist = append(h.Hist, hSkip(c, val))
+			if c > 0 {
+				marked = append(marked, c)
+			}
+		}
+	}
+	if cur == 0 {
+		cur = 1
+		h.Hist = append(h.Hist, hHdr(1))
+	}
+	if r.Pct(10) {
+		// every column gets its own boolean setting, then column 0 anything
+		for c := 1; c <= cur; c++ {
+			h.Hist = append(h.Hist, hSkip(c, 1+r.Intn(2)))
+		}
+		h.Hist = append(h.Hist, hSkip(0, r.Intn(4)))
+	}
+	if r.Pct(92) {
+		h.Hist = append(h.Hist, hHdr(cur))
+	}
+	nrows := 1 + r.Intn(2)
+	for k := 0; k < nrows; k++ {
+		n := cur
+		if len(marked) > 0 && r.Pct(60) {
+			n = marked[len(marked)-1]
+			for _, c := range marked {
+				if c > n {
+					n = c
+				}
+			}
+		} else if r.Pct(50) {
+			n = 1 + r.Intn(cur)
+		}
+		var empty []int
+		for _, c := range marked {
+			if c <= n && !inInts(empty, c-1) {
+				empty = append(empty, c-1)
+			}
+		}
+		for i := 0; i < n; i++ {
+			if r.Pct(15) && !inInts(empty, i) {
+				empty = append(empty, i)
+			}
+		}
+		if r.Pct(15) {
+			h.Hist = append(h.Hist, histOp{Op: "sep"})
+		}
+		h.Hist = append(h.Hist, hRow(n, r.Intn(3), empty...))
+	}
+	return h
+}
+
+// compactTerm: the case as (CRenderT view table outcome) with the cell
+// abbreviations of Run/C07Run.v wherever a cell's observed text, emptiness and
+// encoding are exactly the abbreviation's, and the string-encoding oracle as a
+// table of the distinct texts
+func compactTerm(v View, o Outcome) string {
+	cell := func(c VCell) string {
+		if c.JSON != nil {
+			switch {
+			case c.Text == "" && c.Empty && *c.JSON == `""`:
+				return "cE"
+			case c.Text == "" && c.Empty && *c.JSON == "null":
+				return "cN"
+			case c.Text == "v" && !c.Empty && *c.JSON == `"v"`:
+				return "cV"
+			case c.Text != "" && !c.Empty && *c.JSON == c.Text:
+				return "(cJ " + cqStr(c.Text) + ")"
+			}
+		}
+		return c.Coq(false)
+	}
+	var tbl []string
+	seen := map[string]bool{}
+	note := func(text string) {
+		if seen[text] {
+			return
+		}
+		seen[text] = true
+		b, err := json.Marshal(text)
+		if err != nil {
+			panic(err)
+		}
+		if string(b) == `"`+text+`"` {
+			tbl = append(tbl, "(Q "+cqStr(text)+")") // the encoding is the text between quotes
+		} else {
+			tbl = append(tbl, cqPair(cqStr(text), cqBytes(b)))
+		}
+	}
+	var sb strings.Builder
+	sb.WriteString("(CRenderT (mkView " + cqNat(v.NCols) + " ")
+	if v.Header == nil {
+		sb.WriteString("None ")
+	} else {
+		hs := make([]string, len(*v.Header))
+		for i, h := range *v.Header {
+			hs[i] = "(cH " + cqStr(h.Text) + ")"
+			note(h.Text)
+		}
+		sb.WriteString(cqSome(cqList(hs)) + " ")
+	}
+	rows := make([]string, len(v.Rows))
+	for i, r := range v.Rows {
+		if r == nil {
+			rows[i] = "None"
+			continue
+		}
+		cs := make([]string, len(*r))
+		for j, c := range *r {
+			cs[j] = cell(c)
+			note(c.Text)
+		}
+		rows[i] = cqSome(cqList(cs))
+	}
+	sb.WriteString(cqList(rows) + " (no_aligns " + cqNat(v.NCols) + ") (sparse_skips " + cqNat(v.NCols) + " ")
+	var sk []string
+	for c, x := range v.Skip {
+		if x != 0 {
+			sk = append(sk, cqPair(cqNat(c), []string{"", "SkBool true", "SkBool false", "SkOther"}[x]))
+		}
+	}
+	sb.WriteString(cqList(sk) + ")) " + cqList(tbl) + " " + o.Coq() + ")")
+	return sb.String()
+}
+
+func runHistCase(hs histSpec) CaseOut {
+	v, o := hs.run()
+	co := renderCaseOut(v, o, hs.size())
+	co.Coq = compactTerm(v, o)
+	maxw, widenings := 0, 0
+	for _, op := range hs.Hist {
+		if op.N > maxw {
+			maxw = op.N
+			widenings++
+		}
+	}
+	co.Tags = append(co.Tags, "history", fmt.Sprintf("history:widenings=%d", min(widenings, 5)))
+	switch {
+	case maxw > 64:
+		co.Tags = append(co.Tags, "history:wider-than-64")
+	case maxw >= 10:
+		co.Tags = append(co.Tags, "history:10-to-64-columns")
+	}
+	return co
 }
 
 func init() {
@@ -480,9 +1056,12 @@ func init() {
 			"{unset,true,false,non-bool} to column 0 and column 1 (16), and up to length 3 (thorough 5) x the 21 further assignments over columns 0..2 with at most two set (cells empty or not at random); header none/short/empty/duplicate/too long; " +
 			"random tables to 6 rows x 4 cells with hostile header texts (quotes, backslashes, control bytes, <>&, U+2028, multibyte; invalid UTF-8 in a counted side stream) and items of every " +
 			"JSON-relevant kind (nil, strings, runes, ints, bools, floats, 32 method-set combinations, nested Cell/*Cell, slices, maps, structs, Stringer values encoding as {}, channels that Marshal refuses); " +
+			"build histories (SetProperty / AddHeaders / rows by three paths, interleaved): every assignment of {unset,true,false,non-bool} to column 0 and to ALL columns 1..N (N<=3, thorough 4); " +
+			"a Skipable setting (true / non-bool, on the last column, on column 0, or on every column) made on a table of k columns that is then widened in one step to 9..11, 16, 17, 25, 26, 70, 130 columns by AddHeaders or a row, " +
+			"and chains of such widenings with the then-last column marked before each; tables of 63..130 columns with skipable columns (own, or the column-0 default) at 63..67 and at the edge and empty cells there; random such histories; " +
 			"plus a parser self-validation stream (mutated renderer outputs and hand-written snippets: the Coq parser must agree with json.Valid, the token stream and utf8.Valid). " +
 			"A case is non-trivial when rendering succeeded with at least one object; distinct = distinct (view, outcome)",
-		Exhaustive: "row/separator sequences up to length 4 over {separator,0,1,2 cells} x 16 skipable assignments on columns 0,1; up to length 3 x 37 assignments on columns 0..2 with at most two set (thorough: length 5 x 37)",
+		Exhaustive: "row/separator sequences up to length 4 over {separator,0,1,2 cells} x 16 skipable assignments on columns 0,1; up to length 3 x 37 assignments on columns 0..2 with at most two set (thorough: length 5 x 37); all 4^(N+1) Skipable assignments on columns 0..N for N<=3 (thorough 4); the listed one-step and chained widenings",
 		Gen: func(r *RNG, tier string) []json.RawMessage {
 			var out []json.RawMessage
 			add := func(ts TableSpec) { out = append(out, mustJSON(ts)) }
@@ -585,6 +1164,38 @@ func init() {
 					add(ts2)
 				}
 			})
+			// build histories: settings made before widenings, wide tables (see histFamilies)
+			smallH, wideH := histFamilies(tier)
+			for _, h := range smallH {
+				out = append(out, mustJSON(h))
+			}
+			nh, nhw := 120, 12
+			if tier == "thorough" {
+				nh, nhw = 4000, 400
+			}
+			for i := 0; i < nh; i++ {
+				out = append(out, mustJSON(randHist(r, 40)))
+			}
+			for i := 0; i < nhw; i++ {
+				wideH = append(wideH, randHist(r, 130))
+			}
+			// the wide ones make big Coq terms: spread them over the shards
+			{
+				step := len(out)/(len(wideH)+1) + 1
+				var mixed []json.RawMessage
+				wi := 0
+				for i, c := range out {
+					mixed = append(mixed, c)
+					if i%step == step-1 && wi < len(wideH) {
+						mixed = append(mixed, mustJSON(wideH[wi]))
+						wi++
+					}
+				}
+				for ; wi < len(wideH); wi++ {
+					mixed = append(mixed, mustJSON(wideH[wi]))
+				}
+				out = mixed
+			}
 			n, nbad, nparse := 500, 120, 900
 			if tier == "thorough" {
 				n, nbad, nparse = 12000, 3000, 12000
@@ -640,6 +1251,13 @@ func init() {
 				}
 				return runParseCase(ps)
 			}
+			if _, isHist := probe["hist"]; isHist {
+				var hs histSpec
+				if err := json.Unmarshal(spec, &hs); err != nil {
+					panic(err)
+				}
+				return runHistCase(hs)
+			}
 			var ts TableSpec
 			if err := json.Unmarshal(spec, &ts); err != nil {
 				panic(err)
@@ -660,6 +1278,17 @@ func init() {
 				for i := range ps.Parse {
 					m := append(append([]byte{}, ps.Parse[:i]...), ps.Parse[i+1:]...)
 					out = append(out, mustJSON(parseSpec{Parse: m, Q: fmt.Sprintf("%q", m)}))
+				}
+				return out
+			}
+			if _, isHist := probe["hist"]; isHist {
+				var hs histSpec
+				if json.Unmarshal(spec, &hs) != nil {
+					return nil
+				}
+				var out []json.RawMessage
+				for _, c := range hs.shrinks() {
+					out = append(out, mustJSON(c))
 				}
 				return out
 			}
